@@ -1,7 +1,7 @@
 CONSTANTS
   NS = 2
   Units = 2
-  Lens = {1, 2}
+  Lens = {2}
   Wins = {1, 2}
   ConnWin = 3
   MaxStreamss = {2}
